@@ -4,7 +4,10 @@
 package pomsg
 
 // C11: a message is representable in a PO file exactly when a plural, if any,
-// is the first child and has the two cases PO knows ({case 1} and {default}).
+// is the first child and has the two cases PO knows ({case 1} and {default}),
+// and when the msgid of each body reads back (soymsg.Parts, the function that
+// reads translations) as the body's own placeholders, in order: text such as
+// {lb}NAME{rb} cannot be told from a placeholder.
 //@ func Validate
 //@   props C11
 //@   nosafety
@@ -13,8 +16,32 @@ package pomsg
 //@   at call ast.ParentNode.Children#0 assert[the-message's-own-children;C11] arg0 == n.Body
 //@   at call ast.ParentNode.Children#0 after set ch = res
 //@   ensures[accepted-only-if-plurals-are-first-and-have-case-one-and-default;C11] isnil(result) ==> forall(i, 0, len(ch), typeis(ch[i], *ast.MsgPluralNode) ==> i == 0 && len(unbox(ch[i], *ast.MsgPluralNode).Cases) == 1 && unbox(ch[i], *ast.MsgPluralNode).Cases[0].Value == 1)
+//@   at call pomsg.readsBack#0 assert[each-body-that-becomes-a-msgid-is-read-back;C11] arg0 == bodies[rangeindex + 1]
 //@   loop 0
 //@     invariant[children-so-far-are-fine;C11] forall(i, 0, rangeindex + 1, typeis(ch[i], *ast.MsgPluralNode) ==> i == 0 && len(unbox(ch[i], *ast.MsgPluralNode).Cases) == 1 && unbox(ch[i], *ast.MsgPluralNode).Cases[0].Value == 1)
+//@     invariant[the-bodies-are-the-message's-or-the-two-plural-cases;C11] fresh(bodies) && len(bodies) >= 1 && len(bodies) <= 2
+//@   loop 1
+//@     invariant[children-stay-fine;C11] forall(i, 0, len(ch), typeis(ch[i], *ast.MsgPluralNode) ==> i == 0 && len(unbox(ch[i], *ast.MsgPluralNode).Cases) == 1 && unbox(ch[i], *ast.MsgPluralNode).Cases[0].Value == 1)
+
+// the placeholders that soymsg.Parts finds in the body's msgid are the body's
+// placeholder nodes, by name and in order, or the body is refused.
+//@ func readsBack
+//@   props C11
+//@   nosafety
+//@   modifies *
+//@   preserves F!github.com/robfig/soy/ast.* E!Iface:github.com/robfig/soy/ast.Node E!Int:*github.com/robfig/soy/ast.*
+//@   ghost ch []ast.Node = nil
+//@   ghost written int = 0
+//@   at call ast.ParentNode.Children#0 assert[the-body's-own-children;C11] arg0 == body
+//@   at call ast.ParentNode.Children#0 after set ch = res
+//@   at call pomsg.writeph#0 assert[each-child-written-as-the-msgid-writes-it;C11] arg1 == ch[rangeindex + 1]
+//@   at call pomsg.writeph#0 after set written = written + 1
+//@   at call soymsg.Parts#0 assert[read-with-the-reader-of-translations-after-all-children;C11] written == len(ch)
+//@   at call fmt.Errorf#0 assert[refused-only-for-a-placeholder-that-is-not-the-next-node;C11] i >= len(names) || names[i] != unbox(part, soymsg.PlaceholderPart).Name
+//@   loop 0
+//@     invariant[children-written-so-far;C11] written == rangeindex + 1 && written <= len(ch) && fresh(names)
+//@   loop 1
+//@     invariant 0 <= i
 
 // the msgid is the message's text with {NAME} for each placeholder; for a
 // plural message the singular id is the {case 1} body, the plural id the
@@ -46,7 +73,7 @@ package pomsg
 //@ func writeph
 //@   props C11
 //@   nosafety
-//@   modifies *
+//@   pure
 //@   at call (*bytes.Buffer).Write#0 assert[raw-text-verbatim;C11] arg0 == buf && sameslice(arg1, unbox(child, *ast.RawTextNode).Text)
 
 // the catalogue hands out the message stored under the id, or nil.
